@@ -337,7 +337,21 @@ def _parallel_sites(ctx):
                     ia = b.get(idx_formal) if idx_formal else None
                     if not (ia is not None and isinstance(ia, ast.Name)
                             and ia.id in enum_idx):
-                        slot_ok = False
+                        # any other spelling of "the task's own position":
+                        # zip(range(n), xs), range(len(xs)) ... (on terms)
+                        from ..tutil import POS, align_positions
+                        pa = None
+                        if ia is not None:
+                            Tf = Terms(DefUse(prog, f), phi_vars=True)
+                            pa = align_positions(Tf.of(ia))
+                        own_pos = pa == POS or (
+                            pa is not None and pa[0] == "bin"
+                            and pa[1] in ("+", "-") and (
+                                (pa[2] == POS and pa[3][0] == "const")
+                                or (pa[1] == "+" and pa[3] == POS
+                                    and pa[2][0] == "const")))
+                        if not own_pos:
+                            slot_ok = False
                 if slot_ok and how:
                     distinct = True
                     reason = "slot indexed by the task's enumerate index"
@@ -448,24 +462,44 @@ def _models_sorted(ctx):
     prog = ctx.prog
     f = prog.func("mokapot.brew.brew")
     cfg = CFG(f.node)
-    sorts = [n for n in ast.walk(f.node) if isinstance(n, ast.Call)
-             and callee_is(prog, f, n, "fitted.sort")]
+    # sink-driven: the list that is unzipped into (models, resets) is, on
+    # every path, the result of an in-place sort or of sorted() by the
+    # recorded fold  (no variable is named)
+    du0 = DefUse(prog, f)
+    T0 = Terms(du0)
     unzips = [n for n in ast.walk(f.node) if isinstance(n, ast.Call)
-              and ast.unparse(n) == "zip(*fitted)"]
-    ctx.require(len(unzips) == 1, f"{f.qual}: zip(*fitted) not found")
-    ok = False
-    why = "fitted is never sorted"
-    if len(sorts) == 1:
-        key = {k.arg: k.value for k in sorts[0].keywords}.get("key")
-        by_fold = isinstance(key, ast.Lambda) and ast.unparse(
-            key.body).endswith(".fold")
-        un = cfg.node_of(unzips[0]).id
-        sn = cfg.node_of(sorts[0]).id
-        ok = by_fold and cfg.every_path_passes(cfg.entry.id, un, {sn})
-        why = ("sort key is not the recorded fold" if not by_fold else
-               "some path reaches zip(*fitted) without sorting: "
-               + cfg.describe_path(cfg.witness_path(cfg.entry.id, un, {sn})
-                                   or []))
+              and callee_is(prog, f, n, "zip", "builtins.zip")
+              and len(n.args) == 1 and isinstance(n.args[0], ast.Starred)
+              and not n.keywords]
+    ctx.require(len(unzips) == 1, f"{f.qual}: the zip(*...) that separates "
+                "models from reset flags was not found")
+    lt = T0.of(unzips[0].args[0].value)
+
+    def alts(t):
+        if t[0] == "phi":
+            return [y for x in t[1] for y in alts(x)]
+        return [t]
+
+    def sort_key(t):
+        """key of the sort that produced t, '' when sorted without key,
+        None when t is not the result of a sort"""
+        if t[0] == "mut" and t[2] == "sort":
+            return dict(t[4]).get("key", "")
+        if t[0] == "call" and t[1] == "builtins.sorted" and t[2]:
+            return dict(t[3]).get("key", "")
+        return None
+
+    def by_fold(k):
+        return bool(k) and k[0] == "lambda" and len(k[1]) == 1 and \
+            k[2][0] == "attr" and k[2][2] == "fold" and any(
+                x == ("lparam", k[1][0]) for x in walk_term(k[2]))
+    keys = [sort_key(a) for a in alts(lt)]
+    ok = bool(keys) and all(by_fold(k) for k in keys)
+    if any(k is None for k in keys):
+        why = ("on some path the models are paired with the folds without "
+               f"having been sorted: {show(lt, 120)}")
+    else:
+        why = "sort key is not the recorded fold"
     ctx.check(ok, "C05b-models-sorted-by-fold", f,
               "fitted (or supplied) models are sorted by their recorded "
               "fold on every path before they are paired with the folds",
